@@ -289,7 +289,7 @@ func (k *Kernel) openat(dirfd int, path string, flags int) (int, syscall.Errno) 
 	if flags&syscall.O_DIRECTORY != 0 && !in.isDir {
 		return -1, syscall.ENOTDIR
 	}
-	if in.isDir && flags&oACCMODE != syscall.O_RDONLY {
+	if in.isDir && (flags&oACCMODE != syscall.O_RDONLY || flags&syscall.O_CREAT != 0) {
 		return -1, syscall.EISDIR
 	}
 	if flags&syscall.O_TRUNC != 0 && !in.isDir && flags&oACCMODE != syscall.O_RDONLY {
@@ -494,23 +494,29 @@ func (k *Kernel) renameat(ofd int, opath string, nfd int, npath string) syscall.
 	if e != 0 {
 		return e
 	}
-	n, ok := od.entries[oname]
-	if !ok || oname == "" {
-		return syscall.ENOENT
-	}
 	nd, nname, e := k.lookupParent(nfd, npath)
 	if e != 0 {
 		return e
+	}
+	n, ok := od.entries[oname]
+	if !ok || oname == "" {
+		return syscall.ENOENT
 	}
 	if nname == "" {
 		return syscall.EEXIST
 	}
 	src := k.inodes[n]
+	if src.isDir && k.isAncestor(src, nd) {
+		return syscall.EINVAL
+	}
 	if tn, ok := nd.entries[nname]; ok {
 		if tn == n {
 			return 0
 		}
 		tgt := k.inodes[tn]
+		if tgt.isDir && k.isAncestor(tgt, od) {
+			return syscall.ENOTEMPTY // the target contains the source
+		}
 		if tgt.isDir && !src.isDir {
 			return syscall.EISDIR
 		}
@@ -528,13 +534,23 @@ func (k *Kernel) renameat(ofd int, opath string, nfd int, npath string) syscall.
 	return 0
 }
 
+// isAncestor reports whether dir a is d itself or an ancestor of d.
+func (k *Kernel) isAncestor(a, d *inode) bool {
+	if a == d {
+		return true
+	}
+	for _, n := range a.entries {
+		if c := k.inodes[n]; c != nil && c.isDir && k.isAncestor(c, d) {
+			return true
+		}
+	}
+	return false
+}
+
 func (k *Kernel) linkat(ofd int, opath string, nfd int, npath string) syscall.Errno {
 	src, e := k.lookup(ofd, opath)
 	if e != 0 {
 		return e
-	}
-	if src.isDir {
-		return syscall.EPERM
 	}
 	nd, nname, e := k.lookupParent(nfd, npath)
 	if e != 0 {
@@ -545,6 +561,9 @@ func (k *Kernel) linkat(ofd int, opath string, nfd int, npath string) syscall.Er
 	}
 	if _, ok := nd.entries[nname]; ok {
 		return syscall.EEXIST
+	}
+	if src.isDir {
+		return syscall.EPERM
 	}
 	nd.entries[nname] = src.ino
 	src.nlink++
